@@ -121,6 +121,18 @@ func verifC02Liquidity(op int) {
 		for k := range before {
 			verifAssert(d(k).Sign() == 0, "failed liquidity message moves nothing")
 		}
+		if op == 1 {
+			// liveness at the boundaries: the first deposit into a new pool is refused only when its deadline has
+			// passed, when the shares it mints (the standard amount) are fewer than the stated minimum, or when the
+			// sender cannot pay the deposit plus the pool-creation fee
+			late := now > deadline || (now == deadline && nanos > 0)
+			needStd := new(big.Int).Set(a2)
+			if params.PoolCreationFee.Denom == csStd {
+				needStd = verifAdd(needStd, params.PoolCreationFee.Amount.BigInt())
+			}
+			poor := before["sender/"+csStd].Cmp(needStd) < 0 || before["sender/btc"].Cmp(a1) < 0
+			verifAssert(late || a3.Cmp(a2) > 0 || poor, "a first deposit that meets its own minimum, in time, from a sender who can pay, creates the pool")
+		}
 		return
 	}
 	verifCover("accepted")
